@@ -38,6 +38,8 @@ MISMATCH_BUDGET = 0.0
 RULE = ('random edge-consistent sequences of 1-8 (quick) / 1-30 (thorough) blocks with block/sinc/composite (2-3 '
         'equal-amplitude lobes of different length: peak reached on an unevenly distributed sample set) RF pulses of use '
         'none/excitation/refocusing/inversion/saturation/preparation (random delay, duration, centre position), '
+        'one fifth of the sequences also written and read into a Sequence() whose system has another gradient raster '
+        '(k-space of the re-read object vs the integrator of its own events), '
         'gradients of all kinds on 3 channels (also during RF), ADC events with random dwell/delay/num_samples; per '
         'sequence calculate_kspace(): t_adc, t_excitation, t_refocusing and k_traj_adc on every channel vs exact '
         'integrator and vs the extracted model; every finite point of the full k_traj on the rebuilt time axis vs '
@@ -105,6 +107,10 @@ def junction_k_slack(rend, raster):
         ts1, vs1 = eg.event_corners(g1, raster)
         if s0 + ts0[-1] == s1 + ts1[0] and len(ts1) > 1:
             tot += abs(vs0[-1] - vs1[0]) * (ts1[1] - ts1[0])
+        elif s0 + ts0[-1] < s1 + ts1[0]:
+            # events that do not meet but are not exactly zero at the facing ends (re-read shapes: `last` restored
+            # by extrapolation of rounded samples): the export ramps through the gap
+            tot += (abs(vs0[-1]) + abs(vs1[0])) * (s1 + ts1[0] - s0 - ts0[-1])
     return tot
 
 
@@ -149,16 +155,31 @@ def close_t(a, b):
 
 
 def run_case(ctx, case, rng):
+    """the sequence as built; then (reread cases) the same sequence written and read into a Sequence() whose system
+    has ANOTHER gradient raster: k-space of the re-read object vs the exact integrator of its own events"""
     try:
         seq = eg.build_sequence(case)
     except Exception as e:
         ctx.count('gen.refused')
         return None
+    ok = check_seq(ctx, case, seq, case['blocks'], rng)
+    if ok and 'reread_raster_us' in case:
+        try:
+            s2 = eg.reread_sequence(seq, case)
+        except Exception as e:
+            ctx.count('gen.reread_refused')
+            return ok
+        ctx.count('reread')
+        ok = check_seq(ctx, dict(case, phase='reread'), s2, None, rng)
+    return ok
+
+
+def check_seq(ctx, case, seq, blocks_desc, rng):
     held = eg.Held(seq)
     if not held.ok:
         ctx.count('gen.off_grid')
         return None
-    for blk, ent in zip(case['blocks'], held.blocks):
+    for blk, ent in zip(blocks_desc or [], held.blocks):
         for j, chn in enumerate('xyz'):
             if chn in blk['g'] and ent['g'][j] is not None and eg.stored_differs(blk['g'][chn], ent['g'][j], held.raster):
                 ctx.count('gen.event_changed_by_storage(see C08)')
@@ -355,23 +376,29 @@ def run(ctx):
     rng = ctx.rng('sequences')
     trng = ctx.rng('times')
     big = ctx.tier == 'thorough' or ctx.escalated
-    n_cases = 3000 if big else 130
+    n_cases = 3000 if big else 118
     cases = corpus()
     for i in range(n_cases):
         k = rng.random()
-        b = eg.Builder(rng, with_rf=k < 0.85, with_adc=True, max_blocks=30 if big and i % 4 == 0 else 9)
-        cases.append(b.generate())
+        stream = rng.choice(['plain', 'plain', 'plain', 'plain', 'reread'])
+        b = eg.Builder(rng, with_rf=k < 0.85, with_adc=True, max_blocks=30 if big and i % 4 == 0 else 9,
+                       reread=(stream == 'reread'))
+        c = b.generate()
+        c['stream'] = stream
+        cases.append(c)
     for i, c in enumerate(cases):
         if ctx.out_of_time():
             ctx.notes.append('time budget reached after %d sequences' % i)
             break
         run_case(ctx, c, trng)
+        ctx.count('stream.%s' % c.get('stream', 'corpus'))
         if i % 50 == 1:
             ctx.sample({'raster_us': c['raster_us'], 'n_blocks': len(c['blocks']),
                         'rf': [b['rf'] for b in c['blocks'] if b['rf']][:3], 'adc': [b['adc'] for b in c['blocks'] if b['adc']][:2]})
 
 
 def replay(ctx, case):
+    case = {k: v for k, v in case.items() if k != 'phase'}
     ok = run_case(ctx, case, ctx.rng('times'))
     seq = eg.build_sequence(case)
     k_adc, k_traj, t_exc, t_ref, t_adc = seq.calculate_kspace()
